@@ -508,6 +508,27 @@ def fixed():
     z.register(flex_vec(array(U16, 0), "u16"))
     z.register(flex_vec(flat_vec(U8, "u8"), "u8"), msg=True)
 
+    # 4b. zero-sized fields that still have an alignment ([u64; 0] and friends) in the middle of a field list: C layout
+    # rounds the position up for them, and the field behind them starts there
+    z64, z32, z16 = array(U64, 0), array(U32, 0), array(U16, 0)
+    z.struct([U8, z64, U8], comment="zero-sized align-8 field in the middle")
+    z.struct([U16, z32, U8, U8], tuple_=True, comment="zero-sized align-4 field in the middle (tuple)")
+    z.struct([U8, z16, BOOL, U8], comment="zero-sized align-2 field in front of a constrained field")
+    z.struct([U8, z64, U8, flat_vec(U8, "u8")], sized=False, comment="zero-sized align-8 field in an unsized struct prefix")
+    z.struct([U8, z32, flat_vec(U8, "u8")], sized=False, comment="zero-sized align-4 field right in front of the tail")
+    z.enum([("unit", []), ("named", [U8, z32, U16]), ("tuple", [U16, z64, BOOL])], comment="sized enum, zero-sized aligned fields in variants")
+    z.enum([("unit", []), ("named", [U8, z32, U8, flat_vec(U8, "u8")]), ("tuple", [U8, z16, U8])], sized=False,
+           comment="unsized enum, zero-sized aligned fields in variants")
+    # 4c. defaults that are not all-zero bytes inside arrays: enums whose #[default] variant is not the first
+    c_def1 = z.enum([("unit", []), ("unit", []), ("unit", [])], default=1, comment="c-like enum, default is the second variant")
+    e_def2 = z.enum([("tuple", [U16]), ("unit", []), ("unit", [])], default=2, tag="u16", comment="data enum, default is the third variant, u16 tag")
+    z.struct([array(c_def1, 4), U8, e_def2], default=True, comment="sized struct with an array of non-zero-default enums")
+    z.struct([array(c_def1, 4), array(e_def2, 3), flat_vec(U8, "u8")], sized=False, default=True,
+             comment="unsized struct with arrays of non-zero-default enums")
+    z.struct([U8, array(array(c_def1, 2), 2), flat_string("u8")], sized=False, default=True, comment="nested arrays of non-zero-default enums")
+    z.enum([("unit", []), ("named", [array(e_def2, 2), flat_vec(U8, "u8")]), ("tuple", [array(c_def1, 3)])], sized=False,
+           comment="unsized enum with arrays of non-zero-default enums in variants")
+
     # 5b. generic definitions (type and const parameters; the macro cannot take an unsized type parameter as the tail,
     # so tails are containers of a parameter), several instantiations each
     def generic_family(a, b, n, key, tail, tail_text):
